@@ -60,6 +60,10 @@ ENUMERATOR (deterministic, exhaustive over the stated alphabets).  Universe: cat
   raise_on_missing both ways and ensure_data_types); after longer sequences the compact subset of it (12 lookups
   that parse text + all find probes).
 
+FRAME: only add_table writes the registrations.  s.mapping (values compared with their Python types: a type text is not the
+  DataType built from it) is compared before and after every lookup of a sequence and every probe; a lookup that changes it is
+  reported as lookup-changes-mapping (the oracle above is built from s.mapping, so this is also what makes it an oracle).
+
 Kinds (first that applies):  missed-ambiguity (a fresh schema finds the probe's name ambiguous, s does not say so),
   spurious-ambiguity (s raises Ambiguous, fresh does not), stale-after-add / stale-after-update (s still gives the
   answer that was right before the last mapping-changing add_table, which added / updated a table),
@@ -475,6 +479,11 @@ def replay_ops(cfg, ops):
         pre_depth = _mapping_depth(s.mapping) if op[0] == "add" and op[3] == "nomatch" else None
         r = execute(s, op, cfg)
         trace.append(r)
+        if op[0] != "add" and getattr(s, "_verif_lookup_mut", None) is None and mkey(s) != before:
+            # a LOOKUP changed the registrations themselves (the fresh-schema oracle is built from s.mapping, so it must first be
+            # established that only add_table writes it)
+            s._verif_lookup_mut = i
+            before = mkey(s)
         if op[0] == "add":
             after = mkey(s)
             if after != before:
@@ -571,8 +580,25 @@ def check_sequence(cfg, ops, plist, stats, viols):
     key = mkey(s)
     diffs = []
     saved = _save_derived(s)
+
+    def frame_violation(rep_ops, i):
+        op = rep_ops[i]
+        viols.append({
+            "key": f"c18:{FUNC[op[0]]}:lookup-changes-mapping:{cfg[0]}:{dname(cfg[1])}",
+            "cause": "mapping",
+            "what": f"the lookup {FUNC[op[0]]}{tuple(op[1:])} (op {i}) changed the schema's registrations (s.mapping)",
+            "input": {"depth": cfg[0], "dialect": cfg[1], "normalize": cfg[2], "initial": cfg[3], "ops": [list(o) for o in rep_ops[: i + 1]],
+                      "probe": list(op), "mapping": json.loads(mkey(s)), "frame": True},
+        })
+
+    if getattr(s, "_verif_lookup_mut", None) is not None:
+        frame_violation(list(ops), s._verif_lookup_mut)
+        return
     for k, probe in enumerate(plist):
         s_ans = execute(s, probe, cfg)
+        if mkey(s) != key:
+            frame_violation(list(ops) + [probe], len(ops))
+            return
         _restore_derived(s, saved)  # undo the probe's own cache fills: the next probe meets the post-sequence state
         f_ans = fresh_answer(s, cfg, probe, key)
         stats["evals"] += 1
@@ -830,6 +856,11 @@ def replay(entry):
     cfg = (inp["depth"], inp["dialect"], inp["normalize"], inp["initial"])
     ops = [_tup(o) for o in inp["ops"]]
     probe = _tup(inp["probe"])
+    if inp.get("frame"):
+        s, _, _, _ = replay_ops(cfg, ops)
+        i = getattr(s, "_verif_lookup_mut", None)
+        key = f"c18:{FUNC[ops[i][0]]}:lookup-changes-mapping:{cfg[0]}:{dname(cfg[1])}" if i is not None else None
+        return {"violated": key == entry["key"], "observed": f"{key}: op {i} changed s.mapping" if key else "no lookup changed s.mapping", "keys": [key] if key else []}
     s, _, last_mut, mixed = replay_ops(cfg, ops)
     s_ans = execute(s, probe, cfg)
     s2, _, _, _ = replay_ops(cfg, ops)
